@@ -72,6 +72,9 @@ type c13kPod struct {
 	// policy-route only: before Setup the host namespace holds the legacy-format rule pair
 	// (see LegacyUnrelated) for this very address
 	LegacyOwn bool `json:"legacy_rules_own"`
+	// bandwidth limits in bytes/s (0 = none), as pod annotations / runtime config give them
+	Ingress uint64 `json:"ingress"`
+	Egress  uint64 `json:"egress"`
 	// exclusive ENI with eth1 only: the ENI of eth1 has, in the host namespace, the ifindex eth0
 	// has inside the pod, so the kernel renumbers it when it is moved in
 	Collide bool `json:"eth1_index_collides"`
@@ -123,7 +126,8 @@ type c13kScenario struct {
 	// rules in the format older releases wrote, left by a pod that is long gone: `from U iif <veth
 	// that no longer exists> lookup T` (prio 2048) plus the plain `to U lookup main` (prio 512),
 	// U being nobody's address in this case; present before any pod is set up
-	LegacyUnrelated bool `json:"legacy_rules_unrelated"`
+	LegacyUnrelated bool   `json:"legacy_rules_unrelated"`
+	BWMode          string `json:"bandwidth_mode"` // CNI conf: "", "tc" or "edt"
 }
 
 // the address of the long-gone pod of LegacyUnrelated (last byte 90: never a pod, gateway or node address)
@@ -199,6 +203,8 @@ func c13kGen(t *rapid.T) c13kScenario {
 		p.Stale = s.DP == c13DPPolicy && rapid.IntRange(0, 2).Draw(t, "stale") == 0
 		p.PrevOwner = s.DP == c13DPPolicy && rapid.IntRange(0, 2).Draw(t, "prevowner") == 0
 		p.LegacyOwn = s.DP == c13DPPolicy && rapid.IntRange(0, 3).Draw(t, "legacyown") == 0
+		p.Ingress = rapid.SampledFrom(c13Rates).Draw(t, "ingress")
+		p.Egress = rapid.SampledFrom(c13Rates).Draw(t, "egress")
 		if s.DP == c13DPExclusive && rapid.IntRange(0, 2).Draw(t, "multi") == 0 {
 			p.Multi = true
 			p.NoPeer = rapid.Bool().Draw(t, "nopeer-multi")
@@ -258,6 +264,7 @@ func c13kGen(t *rapid.T) c13kScenario {
 	s.Decoys = rapid.IntRange(0, 3).Draw(t, "decoys") != 0
 	s.NameInDel = rapid.Bool().Draw(t, "nameindel")
 	s.LegacyUnrelated = rapid.IntRange(0, 2).Draw(t, "legacyunrelated") == 0
+	s.BWMode = rapid.SampledFrom([]string{"", types.BandwidthModeTC, types.BandwidthModeTC, types.BandwidthModeEDT}).Draw(t, "bwmode")
 	s.EniIndexMode = rapid.SampledFrom([]int{c13kIdxReal, c13kIdxReal, c13kIdxReal, c13kIdxZero, c13kIdxStale}).Draw(t, "eniindexmode")
 	return s
 }
@@ -455,7 +462,9 @@ func (e *c13kEnv) setupConfigIf(p, i int, eniIndex int) *types.SetupConfig {
 		ENIIndex:          eniIndex,
 		DefaultRoute:      true,
 		DisableCreatePeer: pod.NoPeer,
+		BandwidthMode:     s.BWMode,
 	}
+	cfg.Ingress, cfg.Egress = e.bandwidth(p)
 	if e.ifaces(p) > 1 {
 		cfg.MultiNetwork = true
 		cfg.DefaultRoute = (i == 1) == pod.DefaultB
@@ -1130,6 +1139,45 @@ func (e *c13kEnv) raProbe(p int, when string) {
 	}
 }
 
+// bandwidth returns the limits pod p is set up with.  The sandbox kernel has sch_tbf and mq but
+// no sch_fq, so the combinations whose shaper the unchanged code cannot install here are not
+// run (Setup returns the qdisc error before or after the routing state, which says nothing
+// about routing); what was dropped is labelled.
+func (e *c13kEnv) bandwidth(p int) (ingress, egress uint64) {
+	s := e.s
+	ingress, egress = s.Pods[p].Ingress, s.Pods[p].Egress
+	edt := s.BWMode == types.BandwidthModeEDT
+	switch s.DP {
+	case c13DPPolicy:
+		if edt && egress > 0 {
+			egress = 0 // ensureMQFQ needs sch_fq
+			e.c.Label("bw:dropped:policy-edt-egress(no sch_fq)")
+		}
+	case c13DPIPVlan:
+		if edt && (ingress > 0 || egress > 0) {
+			ingress, egress = 0, 0 // ensureFQ needs sch_fq
+			e.c.Label("bw:dropped:ipvlan-edt(no sch_fq)")
+		} else if egress == 0 && ingress > 0 {
+			ingress = 0 // IPvlanDriver.Setup calls SetupTC(link, 0): "invalid rate 0"
+			e.c.Label("bw:dropped:ipvlan-tc-ingress-only(invalid rate 0)")
+		}
+	}
+	switch {
+	case ingress == 0 && egress == 0:
+		e.c.Label("bw:none")
+	case edt:
+		e.c.Label("bw:edt")
+	default:
+		if ingress > 0 {
+			e.c.Label("bw:tc-ingress")
+		}
+		if egress > 0 {
+			e.c.Label("bw:tc-egress")
+		}
+	}
+	return ingress, egress
+}
+
 // legacyPair installs the rule pair of an older release for address a whose veth is gone.
 func (e *c13kEnv) legacyPair(a net.IP, goneLink string) {
 	_, hp, _ := net.ParseCIDR(c13kHostPrefix(a))
@@ -1189,7 +1237,17 @@ func (e *c13kEnv) ipvlanSetup(cfg *types.SetupConfig, cont ns.NetNS) error {
 		if err != nil {
 			return err
 		}
-		return nic.Setup(e.ctx, contLink, generateContCfgForIPVlan(cfg, contLink))
+		if err := nic.Setup(e.ctx, contLink, generateContCfgForIPVlan(cfg, contLink)); err != nil {
+			return err
+		}
+		// the shaping steps of IPvlanDriver.Setup, verbatim
+		if cfg.Egress == 0 && cfg.Ingress == 0 {
+			return nil
+		}
+		if cfg.BandwidthMode == types.BandwidthModeEDT {
+			return ensureFQ(e.ctx, contLink)
+		}
+		return utils.SetupTC(contLink, cfg.Egress)
 	})
 	if err != nil {
 		return fmt.Errorf("container config: %w", err)
